@@ -272,6 +272,48 @@ def check_forward_to_sub(ob, repo: Repo) -> None:
         ob.violation(ffs, ffs.node, "forward_to_sub does not write exactly the received bytes to the sub process")
 
 
+def check_empty_header_eof(repo: Repo, ob) -> None:
+    """Message.from_io: the header is unpacked only once it is established non-empty, and an empty read (how ProxyIO and a
+    closed stream signal the end) raises EOFError -- so the receiver remembers the loss on every transport (shared: C08.a, C04.m, C16.j)"""
+    from ..terms import const as _c, evaluator as _ev
+    f_from = repo.func(f"{GB}.Message.from_io")
+    reads = [c for c in repo.calls_in(f_from) if callee_attr(c) == "read"]
+    unpacks = [c for c in repo.calls_in(f_from) if callee_attr(c) == "unpack"]
+    if not reads or not unpacks:
+        raise AnalysisError("from_io: header read / unpack not found")
+    reads = sorted(reads, key=lambda c: (c.lineno, c.col_offset))
+    evfrom = _ev(repo, f_from)
+    # empty header -> EOFError: the unpack is reached only with a header established non-empty, and the empty case raises EOFError
+    from ..terms import cmp_term as _cmp, tv as _tv
+    n_unp = n_eof = 0
+    eof_ok = True
+    for (pth, st_) in evfrom.run(limit=4000):
+        hd = [e for e in st_.events if e.kind == "call" and e.node is reads[0]]
+        if not hd:
+            continue
+        H = hd[0].result
+        LH = ("pcall", "len", (H,), ())
+
+        def nonempty(known, H=H, LH=LH):
+            return _tv(H, known) is True or _tv(_cmp("eq", LH, _c(0)), known) is False or _tv(_cmp("lt", _c(0), LH), known) is True \
+                or _tv(_cmp("le", _c(1), LH), known) is True
+
+        def empty(known, H=H, LH=LH):
+            return _tv(H, known) is False or _tv(_cmp("eq", LH, _c(0)), known) is True or _tv(_cmp("lt", _c(0), LH), known) is False
+        for e in st_.events:
+            if e.kind == "call" and e.node is unpacks[0]:
+                n_unp += 1
+                if not nonempty(dict(st_.cond[:e.ncond])):
+                    eof_ok = False
+        rz = [e for e in st_.events if e.kind == "raise"]
+        if rz and rz[-1].value is not None and rz[-1].value[0] == "fresh" and str(rz[-1].value[2]).split(".")[-1] == "EOFError" and empty(dict(st_.cond[:rz[-1].ncond])):
+            n_eof += 1
+    eof_ok = eof_ok and n_unp >= 1 and n_eof >= 1
+    ob.site(f_from, f_from.node, "empty header read raises EOFError", ok=eof_ok)
+    if not eof_ok:
+        ob.violation(f_from, f_from.node, "an empty header read does not raise EOFError", construct="no empty-header EOF")
+
+
 def check_forwarder_loop(ob, repo: Repo) -> None:
     """sub -> master direction of serve_proxy_io, over value terms along all feasible paths (helpers and simple
     generators inlined): every Message read from the sub io is re-emitted, as that very object, to the 'w' channel
@@ -488,35 +530,7 @@ def check(ctx: Ctx) -> None:
                     ob.violation(f_from, ct.node, "unpacked header fields do not reach Message(msgcode, channelid, read(length)) in their roles")
         if nctor == 0:
             ob.violation(f_from, unpacks[0], "header is not unpacked into three fields")
-        # empty header -> EOFError: the unpack is reached only with a header established non-empty, and the empty case raises EOFError
-        from ..terms import cmp_term as _cmp, tv as _tv
-        n_unp = n_eof = 0
-        eof_ok = True
-        for (pth, st_) in evfrom.run(limit=4000):
-            hd = [e for e in st_.events if e.kind == "call" and e.node is reads[0]]
-            if not hd:
-                continue
-            H = hd[0].result
-            LH = ("pcall", "len", (H,), ())
-
-            def nonempty(known, H=H, LH=LH):
-                return _tv(H, known) is True or _tv(_cmp("eq", LH, _c(0)), known) is False or _tv(_cmp("lt", _c(0), LH), known) is True \
-                    or _tv(_cmp("le", _c(1), LH), known) is True
-
-            def empty(known, H=H, LH=LH):
-                return _tv(H, known) is False or _tv(_cmp("eq", LH, _c(0)), known) is True or _tv(_cmp("lt", _c(0), LH), known) is False
-            for e in st_.events:
-                if e.kind == "call" and e.node is unpacks[0]:
-                    n_unp += 1
-                    if not nonempty(dict(st_.cond[:e.ncond])):
-                        eof_ok = False
-            rz = [e for e in st_.events if e.kind == "raise"]
-            if rz and rz[-1].value is not None and rz[-1].value[0] == "fresh" and str(rz[-1].value[2]).split(".")[-1] == "EOFError" and empty(dict(st_.cond[:rz[-1].ncond])):
-                n_eof += 1
-        eof_ok = eof_ok and n_unp >= 1 and n_eof >= 1
-        ob.site(f_from, f_from.node, "empty header read raises EOFError", ok=eof_ok)
-        if not eof_ok:
-            ob.violation(f_from, f_from.node, "an empty header read does not raise EOFError", construct="no empty-header EOF")
+        check_empty_header_eof(repo, ob)
 
     check_single_write(ctx, "C08.b")
 
